@@ -2,6 +2,9 @@ use vstd::prelude::*;
 use crate::shim::*;
 use crate::alg::*;
 
+// marker used as a stable quantifier trigger (instantiation happens only for windows explicitly marked)
+pub open spec fn wmark(w: Seq<T>) -> bool { true }
+
 // ---------- sums over sequences of scalars ----------
 pub open spec fn sum(s: Seq<T>) -> real decreases s.len() {
     if s.len() == 0 { 0real } else { sum(s.drop_last()) + s.last().v() }
@@ -237,8 +240,6 @@ pub open spec fn wstats(w: Seq<T>, count: nat, mean: real, m2: real) -> bool {
     &&& m2 * (count as real) == (count as real) * sumsq(w) - sum(w) * sum(w)
     &&& (count == 0 ==> mean == 0real && m2 == 0real)
 }
-// marker used as a stable quantifier trigger in helper contracts (see welford_online.vc)
-pub open spec fn wmark(w: Seq<T>) -> bool { true }
 pub proof fn lemma_welford_add(w: Seq<T>, mean: real, m2: real, x: T, mean1: real, m21: real)
     requires wstats(w, w.len(), mean, m2),
         mean1 == mean + rdiv(x.v() - mean, (w.len() + 1) as real),
@@ -282,6 +283,262 @@ pub proof fn lemma_rdiv_unique(c: real, a: real, b: real)
     assert(c == rdiv(a, b)) by(nonlinear_arith) requires c * b == a, rdiv(a, b) * b == a, b != 0real;
 }
 
+// ---------- weighted sums ----------
+pub open spec fn dot(a: Seq<T>, b: Seq<T>) -> real decreases a.len() {
+    if a.len() == 0 || b.len() != a.len() { 0real } else { dot(a.drop_last(), b.drop_last()) + a.last().v() * b.last().v() }
+}
+pub broadcast proof fn lemma_dot_push(a: Seq<T>, b: Seq<T>, x: T, y: T)
+    requires a.len() == b.len()
+    ensures #[trigger] dot(a.push(x), b.push(y)) == dot(a, b) + x.v() * y.v()
+{
+    assert(a.push(x).drop_last() =~= a); assert(b.push(y).drop_last() =~= b);
+}
+pub broadcast proof fn lemma_dot_drop_first(a: Seq<T>, b: Seq<T>)
+    requires a.len() == b.len(), a.len() > 0
+    ensures #[trigger] dot(a.drop_first(), b.drop_first()) == dot(a, b) - a[0].v() * b[0].v()
+    decreases a.len()
+{
+    if a.len() == 1 {
+        assert(a.drop_first() =~= Seq::<T>::empty()); assert(a.drop_last() =~= Seq::<T>::empty());
+        assert(b.drop_first() =~= Seq::<T>::empty()); assert(b.drop_last() =~= Seq::<T>::empty());
+    } else {
+        lemma_dot_drop_first(a.drop_last(), b.drop_last());
+        assert(a.drop_first().drop_last() =~= a.drop_last().drop_first());
+        assert(b.drop_first().drop_last() =~= b.drop_last().drop_first());
+    }
+}
+pub broadcast proof fn lemma_dot_subrange1(a: Seq<T>, b: Seq<T>)
+    requires a.len() == b.len(), a.len() > 0
+    ensures #[trigger] dot(a.subrange(1, a.len() as int), b.subrange(1, b.len() as int)) == dot(a, b) - a[0].v() * b[0].v()
+{
+    lemma_dot_drop_first(a, b);
+    assert(a.subrange(1, a.len() as int) =~= a.drop_first()); assert(b.subrange(1, b.len() as int) =~= b.drop_first());
+}
+pub open spec fn all_pos(s: Seq<T>) -> bool { forall|i: int| 0 <= i < s.len() ==> #[trigger] s[i].v() > 0real }
+pub broadcast proof fn lemma_all_pos_sum(s: Seq<T>)
+    requires #[trigger] all_pos(s)
+    ensures #[trigger] sum(s) >= 0real, s.len() > 0 ==> sum(s) > 0real && sum(s.drop_first()) >= 0real && all_pos(s.drop_first()),
+    decreases s.len()
+{
+    if s.len() > 0 {
+        assert(all_pos(s.drop_last())) by { assert forall|i: int| 0 <= i < s.drop_last().len() implies #[trigger] s.drop_last()[i].v() > 0real by { assert(s.drop_last()[i] == s[i]); } }
+        lemma_all_pos_sum(s.drop_last());
+        assert(s.last() == s[s.len() - 1]);
+        lemma_sum_drop_first(s);
+        assert(s[0].v() > 0real);
+        assert(all_pos(s.drop_first())) by { assert forall|i: int| 0 <= i < s.drop_first().len() implies #[trigger] s.drop_first()[i].v() > 0real by { assert(s.drop_first()[i] == s[i + 1]); } }
+        if s.len() > 1 {
+            lemma_all_pos_sum(s.drop_first());
+        } else { assert(s.drop_first() =~= Seq::<T>::empty()); }
+    }
+}
+pub broadcast proof fn lemma_all_pos_push(s: Seq<T>, x: T)
+    requires all_pos(s), x.v() > 0real
+    ensures #[trigger] all_pos(s.push(x))
+{
+    assert forall|i: int| 0 <= i < s.push(x).len() implies #[trigger] s.push(x)[i].v() > 0real by { if i < s.len() { assert(s.push(x)[i] == s[i]); } }
+}
+pub proof fn lemma_rdiv_nonzero(a: real, b: real)
+    requires a != 0real, b != 0real
+    ensures rdiv(a, b) != 0real
+{
+    lemma_rdiv_mul(a, b);
+    assert(rdiv(a, b) != 0real) by(nonlinear_arith) requires rdiv(a, b) * b == a, a != 0real;
+}
+
+// ---------- gains / losses of a window (RSI family): d_i = w[i] - (predecessor of w[i]); pred precedes w[0] ----------
+pub open spec fn prev_of(w: Seq<T>, pred: T, i: int) -> real { if i == 0 { pred.v() } else { w[i - 1].v() } }
+pub open spec fn pos_part(x: real) -> real { if x > 0real { x } else { 0real } }
+pub open spec fn neg_part(x: real) -> real { if x > 0real { 0real } else { -x } }
+pub open spec fn gains(w: Seq<T>, pred: T) -> real decreases w.len() {
+    if w.len() == 0 { 0real } else { gains(w.drop_last(), pred) + pos_part(w.last().v() - prev_of(w, pred, w.len() - 1)) }
+}
+pub open spec fn losses(w: Seq<T>, pred: T) -> real decreases w.len() {
+    if w.len() == 0 { 0real } else { losses(w.drop_last(), pred) + neg_part(w.last().v() - prev_of(w, pred, w.len() - 1)) }
+}
+// the same sums with every term divided by n (this is literally what Rsi accumulates)
+pub open spec fn gains_q(w: Seq<T>, pred: T, n: real) -> real decreases w.len() {
+    if w.len() == 0 { 0real } else { gains_q(w.drop_last(), pred, n) + rdiv(pos_part(w.last().v() - prev_of(w, pred, w.len() - 1)), n) }
+}
+pub open spec fn losses_q(w: Seq<T>, pred: T, n: real) -> real decreases w.len() {
+    if w.len() == 0 { 0real } else { losses_q(w.drop_last(), pred, n) + rdiv(neg_part(w.last().v() - prev_of(w, pred, w.len() - 1)), n) }
+}
+pub broadcast proof fn lemma_gl_push(w: Seq<T>, pred: T, x: T)
+    ensures #[trigger] gains(w.push(x), pred) == gains(w, pred) + pos_part(x.v() - (if w.len() == 0 { pred.v() } else { w.last().v() })),
+            #[trigger] losses(w.push(x), pred) == losses(w, pred) + neg_part(x.v() - (if w.len() == 0 { pred.v() } else { w.last().v() })),
+{
+    assert(w.push(x).drop_last() =~= w);
+}
+pub broadcast proof fn lemma_glq_push(w: Seq<T>, pred: T, x: T, n: real)
+    ensures #[trigger] gains_q(w.push(x), pred, n) == gains_q(w, pred, n) + rdiv(pos_part(x.v() - (if w.len() == 0 { pred.v() } else { w.last().v() })), n),
+            #[trigger] losses_q(w.push(x), pred, n) == losses_q(w, pred, n) + rdiv(neg_part(x.v() - (if w.len() == 0 { pred.v() } else { w.last().v() })), n),
+{
+    assert(w.push(x).drop_last() =~= w);
+}
+pub proof fn lemma_gains_drop_first(w: Seq<T>, pred: T)
+    requires w.len() > 0
+    ensures gains(w.drop_first(), w[0]) == gains(w, pred) - pos_part(w[0].v() - pred.v())
+    decreases w.len()
+{
+    if w.len() == 1 {
+        assert(w.drop_first() =~= Seq::<T>::empty()); assert(w.drop_last() =~= Seq::<T>::empty());
+        assert(w.last() == w[0]);
+        assert(gains(Seq::<T>::empty(), w[0]) == 0real);
+        assert(gains(Seq::<T>::empty(), pred) == 0real);
+        assert(gains(w, pred) == gains(w.drop_last(), pred) + pos_part(w.last().v() - prev_of(w, pred, w.len() - 1)));
+    } else {
+        lemma_gains_drop_first(w.drop_last(), pred);
+        let t = w.drop_first(); let u = w.drop_last();
+        assert(u[0] == w[0]);
+        assert(t.drop_last() =~= u.drop_first());
+        assert(t.last() == w.last());
+        if w.len() > 2 { assert(t[w.len() - 3] == w[w.len() - 2]); }
+        assert(prev_of(t, w[0], t.len() - 1) == w[w.len() - 2].v());
+        assert(prev_of(w, pred, w.len() - 1) == w[w.len() - 2].v());
+        assert(gains(t, w[0]) == gains(t.drop_last(), w[0]) + pos_part(t.last().v() - prev_of(t, w[0], t.len() - 1)));
+        assert(gains(w, pred) == gains(u, pred) + pos_part(w.last().v() - prev_of(w, pred, w.len() - 1)));
+    }
+}
+pub proof fn lemma_losses_drop_first(w: Seq<T>, pred: T)
+    requires w.len() > 0
+    ensures losses(w.drop_first(), w[0]) == losses(w, pred) - neg_part(w[0].v() - pred.v())
+    decreases w.len()
+{
+    if w.len() == 1 {
+        assert(w.drop_first() =~= Seq::<T>::empty()); assert(w.drop_last() =~= Seq::<T>::empty());
+        assert(w.last() == w[0]);
+        assert(losses(Seq::<T>::empty(), w[0]) == 0real);
+        assert(losses(Seq::<T>::empty(), pred) == 0real);
+        assert(losses(w, pred) == losses(w.drop_last(), pred) + neg_part(w.last().v() - prev_of(w, pred, w.len() - 1)));
+    } else {
+        lemma_losses_drop_first(w.drop_last(), pred);
+        let t = w.drop_first(); let u = w.drop_last();
+        assert(u[0] == w[0]);
+        assert(t.drop_last() =~= u.drop_first());
+        assert(t.last() == w.last());
+        if w.len() > 2 { assert(t[w.len() - 3] == w[w.len() - 2]); }
+        assert(prev_of(t, w[0], t.len() - 1) == w[w.len() - 2].v());
+        assert(prev_of(w, pred, w.len() - 1) == w[w.len() - 2].v());
+        assert(losses(t, w[0]) == losses(t.drop_last(), w[0]) + neg_part(t.last().v() - prev_of(t, w[0], t.len() - 1)));
+        assert(losses(w, pred) == losses(u, pred) + neg_part(w.last().v() - prev_of(w, pred, w.len() - 1)));
+    }
+}
+pub proof fn lemma_gains_q_drop_first(w: Seq<T>, pred: T, n: real)
+    requires w.len() > 0
+    ensures gains_q(w.drop_first(), w[0], n) == gains_q(w, pred, n) - rdiv(pos_part(w[0].v() - pred.v()), n)
+    decreases w.len()
+{
+    if w.len() == 1 {
+        assert(w.drop_first() =~= Seq::<T>::empty()); assert(w.drop_last() =~= Seq::<T>::empty());
+        assert(w.last() == w[0]);
+        assert(gains_q(Seq::<T>::empty(), w[0], n) == 0real);
+        assert(gains_q(Seq::<T>::empty(), pred, n) == 0real);
+        assert(gains_q(w, pred, n) == gains_q(w.drop_last(), pred, n) + rdiv(pos_part(w.last().v() - prev_of(w, pred, w.len() - 1)), n));
+    } else {
+        lemma_gains_q_drop_first(w.drop_last(), pred, n);
+        let t = w.drop_first(); let u = w.drop_last();
+        assert(u[0] == w[0]);
+        assert(t.drop_last() =~= u.drop_first());
+        assert(t.last() == w.last());
+        if w.len() > 2 { assert(t[w.len() - 3] == w[w.len() - 2]); }
+        assert(prev_of(t, w[0], t.len() - 1) == w[w.len() - 2].v());
+        assert(prev_of(w, pred, w.len() - 1) == w[w.len() - 2].v());
+        assert(gains_q(t, w[0], n) == gains_q(t.drop_last(), w[0], n) + rdiv(pos_part(t.last().v() - prev_of(t, w[0], t.len() - 1)), n));
+        assert(gains_q(w, pred, n) == gains_q(u, pred, n) + rdiv(pos_part(w.last().v() - prev_of(w, pred, w.len() - 1)), n));
+    }
+}
+pub proof fn lemma_losses_q_drop_first(w: Seq<T>, pred: T, n: real)
+    requires w.len() > 0
+    ensures losses_q(w.drop_first(), w[0], n) == losses_q(w, pred, n) - rdiv(neg_part(w[0].v() - pred.v()), n)
+    decreases w.len()
+{
+    if w.len() == 1 {
+        assert(w.drop_first() =~= Seq::<T>::empty()); assert(w.drop_last() =~= Seq::<T>::empty());
+        assert(w.last() == w[0]);
+        assert(losses_q(Seq::<T>::empty(), w[0], n) == 0real);
+        assert(losses_q(Seq::<T>::empty(), pred, n) == 0real);
+        assert(losses_q(w, pred, n) == losses_q(w.drop_last(), pred, n) + rdiv(neg_part(w.last().v() - prev_of(w, pred, w.len() - 1)), n));
+    } else {
+        lemma_losses_q_drop_first(w.drop_last(), pred, n);
+        let t = w.drop_first(); let u = w.drop_last();
+        assert(u[0] == w[0]);
+        assert(t.drop_last() =~= u.drop_first());
+        assert(t.last() == w.last());
+        if w.len() > 2 { assert(t[w.len() - 3] == w[w.len() - 2]); }
+        assert(prev_of(t, w[0], t.len() - 1) == w[w.len() - 2].v());
+        assert(prev_of(w, pred, w.len() - 1) == w[w.len() - 2].v());
+        assert(losses_q(t, w[0], n) == losses_q(t.drop_last(), w[0], n) + rdiv(neg_part(t.last().v() - prev_of(t, w[0], t.len() - 1)), n));
+        assert(losses_q(w, pred, n) == losses_q(u, pred, n) + rdiv(neg_part(w.last().v() - prev_of(w, pred, w.len() - 1)), n));
+    }
+}
+pub proof fn lemma_gl_drop_first(w: Seq<T>, pred: T)
+    requires w.len() > 0
+    ensures gains(w.drop_first(), w[0]) == gains(w, pred) - pos_part(w[0].v() - pred.v()),
+            losses(w.drop_first(), w[0]) == losses(w, pred) - neg_part(w[0].v() - pred.v()),
+{ lemma_gains_drop_first(w, pred); lemma_losses_drop_first(w, pred); }
+pub proof fn lemma_glq_drop_first(w: Seq<T>, pred: T, n: real)
+    requires w.len() > 0
+    ensures gains_q(w.drop_first(), w[0], n) == gains_q(w, pred, n) - rdiv(pos_part(w[0].v() - pred.v()), n),
+            losses_q(w.drop_first(), w[0], n) == losses_q(w, pred, n) - rdiv(neg_part(w[0].v() - pred.v()), n),
+{ lemma_gains_q_drop_first(w, pred, n); lemma_losses_q_drop_first(w, pred, n); }
+pub broadcast proof fn lemma_gl_nonneg(w: Seq<T>, pred: T)
+    ensures #[trigger] gains(w, pred) >= 0real, #[trigger] losses(w, pred) >= 0real
+    decreases w.len()
+{ if w.len() > 0 { lemma_gl_nonneg(w.drop_last(), pred); } }
+pub broadcast proof fn lemma_glq_nonneg(w: Seq<T>, pred: T, n: real)
+    requires n > 0real
+    ensures #[trigger] gains_q(w, pred, n) >= 0real, #[trigger] losses_q(w, pred, n) >= 0real
+    decreases w.len()
+{ if w.len() > 0 { lemma_glq_nonneg(w.drop_last(), pred, n); lemma_rdiv_sign(pos_part(w.last().v() - prev_of(w, pred, w.len() - 1)), n); lemma_rdiv_sign(neg_part(w.last().v() - prev_of(w, pred, w.len() - 1)), n); } }
+// link: (sum of quotients) * n == sum
+pub proof fn lemma_glq_link(w: Seq<T>, pred: T, n: real)
+    requires n > 0real
+    ensures gains_q(w, pred, n) * n == gains(w, pred), losses_q(w, pred, n) * n == losses(w, pred)
+    decreases w.len()
+{
+    if w.len() > 0 {
+        lemma_glq_link(w.drop_last(), pred, n);
+        let d = w.last().v() - prev_of(w, pred, w.len() - 1);
+        lemma_rdiv_mul(pos_part(d), n); lemma_rdiv_mul(neg_part(d), n);
+        lemma_mul_dist(gains_q(w.drop_last(), pred, n), rdiv(pos_part(d), n), n);
+        lemma_mul_dist(losses_q(w.drop_last(), pred, n), rdiv(neg_part(d), n), n);
+    } else {
+        lemma_mul_zero(n);
+    }
+}
+
+pub broadcast proof fn lemma_gains_q_evict(w: Seq<T>, pred: T, n: real)
+    requires w.len() > 0, n > 0real
+    ensures #![trigger gains_q(w, pred, n), wmark(w)] gains_q(w, pred, n) - rdiv(pos_part(w[0].v() - pred.v()), n) == gains_q(w.drop_first(), w[0], n), gains_q(w.drop_first(), w[0], n) >= 0real
+{ lemma_gains_q_drop_first(w, pred, n); lemma_glq_nonneg(w.drop_first(), w[0], n); }
+pub broadcast proof fn lemma_losses_q_evict(w: Seq<T>, pred: T, n: real)
+    requires w.len() > 0, n > 0real
+    ensures #![trigger losses_q(w, pred, n), wmark(w)] losses_q(w, pred, n) - rdiv(neg_part(w[0].v() - pred.v()), n) == losses_q(w.drop_first(), w[0], n), losses_q(w.drop_first(), w[0], n) >= 0real
+{ lemma_losses_q_drop_first(w, pred, n); lemma_glq_nonneg(w.drop_first(), w[0], n); }
+pub broadcast proof fn lemma_gains_evict(w: Seq<T>, pred: T)
+    requires w.len() > 0
+    ensures #![trigger gains(w, pred), wmark(w)] gains(w, pred) - pos_part(w[0].v() - pred.v()) == gains(w.drop_first(), w[0]), gains(w.drop_first(), w[0]) >= 0real
+{ lemma_gains_drop_first(w, pred); lemma_gl_nonneg(w.drop_first(), w[0]); }
+pub broadcast proof fn lemma_losses_evict(w: Seq<T>, pred: T)
+    requires w.len() > 0
+    ensures #![trigger losses(w, pred), wmark(w)] losses(w, pred) - neg_part(w[0].v() - pred.v()) == losses(w.drop_first(), w[0]), losses(w.drop_first(), w[0]) >= 0real
+{ lemma_losses_drop_first(w, pred); lemma_gl_nonneg(w.drop_first(), w[0]); }
+pub proof fn lemma_rdiv_le_k(a: real, b: real, k: real)
+    requires b > 0real, a <= k * b
+    ensures rdiv(a, b) <= k
+{
+    lemma_rdiv_mul(a, b);
+    assert(rdiv(a, b) <= k) by(nonlinear_arith) requires rdiv(a, b) * b == a, a <= k * b, b > 0real;
+}
+pub proof fn lemma_mul_pos_zero(a: real, n: real)
+    requires n > 0real
+    ensures (a * n == 0real) == (a == 0real), a > 0real ==> a * n > 0real, a >= 0real ==> a * n >= 0real
+{
+    assert((a * n == 0real) == (a == 0real)) by(nonlinear_arith) requires n > 0real;
+    assert(a > 0real ==> a * n > 0real) by(nonlinear_arith) requires n > 0real;
+    assert(a >= 0real ==> a * n >= 0real) by(nonlinear_arith) requires n > 0real;
+}
+
 // ---------- division ----------
 pub broadcast proof fn lemma_rdiv_mul(a: real, b: real)
     requires b != 0real
@@ -317,4 +574,13 @@ pub broadcast proof fn lemma_rdiv_sign(a: real, b: real)
     assert(a == 0real ==> q == 0real) by(nonlinear_arith) requires q * b == a, b > 0real;
 }
 
-pub broadcast group group_lem { lemma_nonneg_count_front, lemma_nonneg_count_le, lemma_rdiv_mul, lemma_rdiv_sign, lemma_sumsq_push, lemma_sumsq_drop_first, lemma_sumsq_subrange1, lemma_is_min_of, lemma_is_max_of, lemma_smin_push, lemma_smax_push, lemma_smin_drop_first, lemma_smax_drop_first, lemma_smin_subrange1, lemma_smax_subrange1, lemma_smin_le_first, lemma_smax_ge_first, lemma_sum_push, lemma_sum_drop_first, lemma_sum_subrange1, lemma_sum_empty }
+pub proof fn lemma_rdiv_sign2(a: real, b: real)
+    requires b > 0real
+    ensures a <= 2real * b ==> rdiv(a, b) <= 2real, a >= 0real ==> rdiv(a, b) >= 0real
+{
+    let q = rdiv(a, b);
+    lemma_rdiv_mul(a, b);
+    assert(a <= 2real * b ==> q <= 2real) by(nonlinear_arith) requires q * b == a, b > 0real;
+    assert(a >= 0real ==> q >= 0real) by(nonlinear_arith) requires q * b == a, b > 0real;
+}
+pub broadcast group group_lem { lemma_gains_q_evict, lemma_losses_q_evict, lemma_gains_evict, lemma_losses_evict, lemma_gl_push, lemma_glq_push, lemma_gl_nonneg, lemma_glq_nonneg, lemma_dot_push, lemma_dot_drop_first, lemma_dot_subrange1, lemma_all_pos_sum, lemma_all_pos_push, lemma_nonneg_count_front, lemma_nonneg_count_le, lemma_rdiv_mul, lemma_rdiv_sign, lemma_sumsq_push, lemma_sumsq_drop_first, lemma_sumsq_subrange1, lemma_is_min_of, lemma_is_max_of, lemma_smin_push, lemma_smax_push, lemma_smin_drop_first, lemma_smax_drop_first, lemma_smin_subrange1, lemma_smax_subrange1, lemma_smin_le_first, lemma_smax_ge_first, lemma_sum_push, lemma_sum_drop_first, lemma_sum_subrange1, lemma_sum_empty }
